@@ -9,8 +9,9 @@
           runBTR r σ  agrees with  X86.step i st   on every register, flag, memory byte and the next address
 
   WHAT IS PROVED HERE (all of it universal over operand values / register contents / states; nothing is bounded):
-    (A) mirror + theorem, INSTRUCTION LEVEL (`lift_correct_rr`): 64-bit mode, {mov add sub cmp and or xor} x (register,
-        register) at every operand size and shape — 64-bit, 32-bit (zero-extending), 16-bit, low byte, and the high-byte
+    (A) mirror + theorem, INSTRUCTION LEVEL (`lift_correct_rr`, `lift_correct_ri`, `lift_correct_un`): 64-bit mode,
+        {mov add sub cmp and or xor} x (register, register | immediate of the register's width) and
+        {inc dec neg not} x register, at every operand size and shape — 64-bit, 32-bit (zero-extending), 16-bit, low byte, and the high-byte
         registers ah/ch/dh/bh — every pair of registers (aliasing included), every state: `runBTR` of the mirrored
         `BlockTranslationResult` agrees with `X86.step` on all sixteen general registers, CF ZF SF OF, memory and the
         next address.  The driver compares the mirror SYNTACTICALLY with falcon's dumped IL on every generated case of
@@ -24,6 +25,9 @@
     (B) none (no regenerated per-encoding theorems).
     (C) differential only — falcon's executor vs Lean IL semantics vs this specification vs the host CPU (amd64):
         every other mnemonic and operand form; 32-bit mode for every form; listed as `unproved_mnemonics` in the evidence.
+  MISSING for the full `lift_correct`: memory operands (effective address, load/store through `bytesOf`), every other
+  mnemonic, 32-bit mode (the same algebra over 32-bit full registers), DF and the XMM file in the state relation, and the
+  step from the mirror to the Rust source itself (syntactic comparison on generated cases, not a proof).
 -/
 import FalconProofs.C01.Flags
 import FalconProofs.C01.Shifts
@@ -32,6 +36,7 @@ import FalconProofs.C01.FlagsIL
 import FalconProofs.C01.Cond
 import FalconProofs.C01.RegIL
 import FalconProofs.C01.Alu
+import FalconProofs.C01.Unary
 
 namespace Falcon.C01.Props
 open Falcon Falcon.X86 Falcon.X86Lift Falcon.Const Falcon.Sem Falcon.C01
@@ -192,7 +197,7 @@ def StateOK (σ : State) : Prop := ∃ st, Abs σ st
       * CF ZF SF OF of `σ'` are those of `st'`,
       * memory is unchanged and equals the specification's.
     The mirror is compared syntactically with falcon's dumped IL on every generated case of the class (driver). -/
-theorem lift_correct_rr {m : String} (hm : m ∈ rrMnemonics) {d s : GReg} (hd : Shape d) (hs : Shape s)
+theorem lift_correct_rr {m : String} (hm : m ∈ aluMn) {d s : GReg} (hd : Shape d) (hs : Shape s)
     (hb : s.bits = d.bits) (hdi : d.idx < 16) (hsi : s.idx < 16) (addr len asz : Nat) (haddr : addr + len < 2 ^ 64)
     (σ : State) (st : St) (hok : Abs σ st) :
     ∃ r σ' st', liftRR .amd64 m addr len d s = .ok r ∧
@@ -206,13 +211,41 @@ theorem lift_correct_rr {m : String} (hm : m ∈ rrMnemonics) {d s : GReg} (hd :
   exact ⟨r, σ', st', hr, h1, h2, h3.gpr, h3.cf, h3.zf, h3.sf, h3.of, h4, h3.mem⟩
 
 /-- the same for every `StateOK` state (the machine state it holds is the one the specification starts from) -/
-theorem lift_correct_rr_stateOK {m : String} (hm : m ∈ rrMnemonics) {d s : GReg} (hd : Shape d) (hs : Shape s)
+theorem lift_correct_rr_stateOK {m : String} (hm : m ∈ aluMn) {d s : GReg} (hd : Shape d) (hs : Shape s)
     (hb : s.bits = d.bits) (hdi : d.idx < 16) (hsi : s.idx < 16) (addr len asz : Nat) (haddr : addr + len < 2 ^ 64)
     (σ : State) (hok : StateOK σ) :
     ∃ st r, Abs σ st ∧ liftRR .amd64 m addr len d s = .ok r ∧ Agrees r σ (insRR m addr len asz d s) st := by
   obtain ⟨st, ha⟩ := hok
   exact ⟨st, (lift_rr hm hd hs hb hdi hsi addr len asz haddr σ st ha).choose, ha,
     (lift_rr hm hd hs hb hdi hsi addr len asz haddr σ st ha).choose_spec⟩
+
+/-- **lift_correct_ri.**  The same for `<mnemonic> r, imm` with an immediate of the register's width (what capstone
+    reports: the encoded imm8/imm32 already sign-extended), every immediate value, all five register shapes. -/
+theorem lift_correct_ri {m : String} (hm : m ∈ aluMn) {d : GReg} (hd : Shape d) (hdi : d.idx < 16) (v bytes : Nat)
+    (hb : 8 * bytes = d.bits) (addr len asz : Nat) (haddr : addr + len < 2 ^ 64) (σ : State) (st : St) (hok : Abs σ st) :
+    ∃ r σ' st', liftRI .amd64 m addr len d v bytes = .ok r ∧
+      runBTR r σ = .next σ' [addr + len] ∧
+      X86.step (insRI m addr len asz d v bytes) st = .ok st' (addr + len) [] ∧
+      (∀ i, i < 16 → σ'.get (rName i) = some (ofBV (st'.gpr i))) ∧
+      σ'.get "CF" = some (ofBV (BitVec.ofBool st'.cf)) ∧ σ'.get "ZF" = some (ofBV (BitVec.ofBool st'.zf)) ∧
+      σ'.get "SF" = some (ofBV (BitVec.ofBool st'.sf)) ∧ σ'.get "OF" = some (ofBV (BitVec.ofBool st'.of)) ∧
+      σ'.mem = σ.mem ∧ σ'.mem = st'.mem := by
+  obtain ⟨r, hr, σ', st', h1, h2, h3, h4⟩ := lift_ri hm hd hdi v bytes hb addr len asz haddr σ st hok
+  exact ⟨r, σ', st', hr, h1, h2, h3.gpr, h3.cf, h3.zf, h3.sf, h3.of, h4, h3.mem⟩
+
+/-- **lift_correct_un.**  `inc / dec / neg / not  r` (inc/dec leave CF alone, neg sets CF = (r != 0), not changes no
+    flag), all five register shapes. -/
+theorem lift_correct_un {m : String} (hm : m ∈ unMn) {d : GReg} (hd : Shape d) (hdi : d.idx < 16)
+    (addr len asz : Nat) (haddr : addr + len < 2 ^ 64) (σ : State) (st : St) (hok : Abs σ st) :
+    ∃ r σ' st', liftUn .amd64 m addr len d = .ok r ∧
+      runBTR r σ = .next σ' [addr + len] ∧
+      X86.step (ins1 m addr len asz d) st = .ok st' (addr + len) [] ∧
+      (∀ i, i < 16 → σ'.get (rName i) = some (ofBV (st'.gpr i))) ∧
+      σ'.get "CF" = some (ofBV (BitVec.ofBool st'.cf)) ∧ σ'.get "ZF" = some (ofBV (BitVec.ofBool st'.zf)) ∧
+      σ'.get "SF" = some (ofBV (BitVec.ofBool st'.sf)) ∧ σ'.get "OF" = some (ofBV (BitVec.ofBool st'.of)) ∧
+      σ'.mem = σ.mem ∧ σ'.mem = st'.mem := by
+  obtain ⟨r, hr, σ', st', h1, h2, h3, h4⟩ := lift_un hm hd hdi addr len asz haddr σ st hok
+  exact ⟨r, σ', st', hr, h1, h2, h3.gpr, h3.cf, h3.zf, h3.sf, h3.of, h4, h3.mem⟩
 
 /-! ### non-vacuity -/
 
@@ -224,7 +257,7 @@ example : StateOK σ₀ :=
   ⟨default, { gpr := by decide, cf := by decide, zf := by decide, sf := by decide, of := by decide, mem := rfl }⟩
 
 /-- the class is inhabited: `add bh, cl` (high byte destination) meets the hypotheses of `lift_correct_rr` -/
-example : ("add" ∈ rrMnemonics) ∧ Shape ⟨3, 8, 8⟩ ∧ Shape ⟨1, 8, 0⟩ := ⟨by decide, .h8 3, .r8 1⟩
+example : ("add" ∈ aluMn) ∧ Shape ⟨3, 8, 8⟩ ∧ Shape ⟨1, 8, 0⟩ := ⟨by decide, .h8 3, .r8 1⟩
 
 
 /-- a state holding rbx and a constant: the hypotheses of `il_reg_set` for `mov bh, 0xb0` are met -/
